@@ -95,4 +95,13 @@ def main(argv):
 
 
 if __name__ == "__main__":
-    sys.exit(main(sys.argv[1:]))
+    try:
+        code = main(sys.argv[1:])
+    except SystemExit:
+        raise
+    except BaseException:  # noqa  -- a crash of the machinery is a harness error (3), never to be mistaken for a violation (1)
+        import traceback
+        traceback.print_exc()
+        print("HARNESS-ERROR: the check machinery itself failed; no verdict")
+        code = 3
+    sys.exit(code)
